@@ -347,4 +347,317 @@ theorem rep_padd (h3 : 3 < p) {P Q : Pt} {A B : (SW p a b).Point}
           exact Rep.inf
       · exact rep_add_of_X_ne h3 x1 y1 x2 y2 hx1 hx2 h1 h2 hx
 
+/-! ## Point.__rmul__ is scalar multiplication -/
+
+/-- loop invariant of double-and-add: `result + coef • current` is constant -/
+theorem rep_pmulAux (h3 : 3 < p) : ∀ (fuel coef : ℕ) (cur res : Pt) (C R : (SW p a b).Point),
+    coef < 2 ^ fuel → Rep p a b cur C → Rep p a b res R →
+    Rep p a b (pmulAux p a fuel coef cur res) (R + coef • C) := by
+  intro fuel
+  induction fuel with
+  | zero =>
+    intro coef cur res C R h hC hR
+    have : coef = 0 := by simpa using h
+    subst this
+    simpa [pmulAux] using hR
+  | succ n ih =>
+    intro coef cur res C R h hC hR
+    unfold pmulAux
+    split
+    · next h0 => subst h0; simpa using hR
+    · next h0 =>
+      have he : coef / 2 < 2 ^ n := by omega
+      have hsplit : coef • C = (coef % 2) • C + (coef / 2) • (C + C) := by
+        rw [← two_nsmul, ← mul_nsmul', ← add_nsmul]
+        congr 1; omega
+      rcases Nat.mod_two_eq_zero_or_one coef with h2 | h2
+      · have := ih (coef / 2) (padd p a cur cur) res (C + C) R he (rep_padd h3 hC hC) hR
+        rw [hsplit, h2, zero_nsmul, zero_add]
+        simpa [h2] using this
+      · have := ih (coef / 2) (padd p a cur cur) (padd p a res cur) (C + C) (R + C) he
+          (rep_padd h3 hC hC) (rep_padd h3 hR hC)
+        rw [hsplit, h2, one_nsmul, ← add_assoc]
+        simpa [h2] using this
+
+/-- **Point.__rmul__ is scalar multiplication** -/
+theorem rep_pmul (h3 : 3 < p) (k : ℕ) {P : Pt} {A : (SW p a b).Point} (hP : Rep p a b P A) :
+    Rep p a b (pmul p a k P) (k • A) := by
+  have := rep_pmulAux h3 (k.log2 + 1) k P .inf A 0 Nat.lt_log2_self hP Rep.inf
+  simpa [pmul] using this
+
+/-! ## API: validity predicate, map into the group, transported laws -/
+
+/-- the point is the point at infinity, or has coordinates `< p` (FieldElement's range check)
+    and passes the curve-membership check of `Point.__init__` -/
+def Valid (p a b : ℕ) : Pt → Prop
+  | .inf => True
+  | .aff x y => x < p ∧ y < p ∧ onCurve p a b (.aff x y) = true
+
+instance (p a b : ℕ) (P : Pt) : Decidable (Valid p a b P) := by
+  cases P <;> unfold Valid <;> infer_instance
+
+/-- the opposite point `(x, -y)` -/
+def pneg (p : ℕ) : Pt → Pt
+  | .inf => .inf
+  | .aff x y => .aff x ((p - y) % p)
+
+variable (p a b)
+
+/-- the check of `Point.__init__` is the curve equation in `ZMod p` (for `p > 3`) -/
+theorem onCurve_iff (h3 : 3 < p) (x y : ℕ) :
+    onCurve p a b (.aff x y) = true ↔
+      (y : ZMod p) ^ 2 = (x : ZMod p) ^ 3 + (a : ZMod p) * (x : ZMod p) + (b : ZMod p) := by
+  unfold onCurve
+  rw [beq_iff_eq]
+  constructor
+  · intro h
+    have := congrArg (Nat.cast (R := ZMod p)) h
+    rwa [fpow_two_cast p h3, fadd_cast, fadd_cast, fpow_three_cast p h3, fmul_cast] at this
+  · intro h
+    apply cast_inj_of_lt p (fpow_lt p _ _) (fadd_lt p _ _)
+    rw [fpow_two_cast p h3, fadd_cast, fadd_cast, fpow_three_cast p h3, fmul_cast]
+    exact h
+
+/-- the curve equation over the naturals -/
+theorem onCurve_iff_mod (h3 : 3 < p) (x y : ℕ) :
+    onCurve p a b (.aff x y) = true ↔ y ^ 2 % p = (x ^ 3 + a * x + b) % p := by
+  rw [onCurve_iff p a b h3, ← ZMod.natCast_eq_natCast_iff']
+  push_cast; rfl
+
+open Classical in
+/-- the element of Mathlib's group of curve points represented by a model point
+    (zero for a pair that is not on the curve) -/
+noncomputable def toGroup : Pt → (SW p a b).Point
+  | .inf => 0
+  | .aff x y =>
+    if h : (SW p a b).Nonsingular (x : ZMod p) (y : ZMod p) then .some _ _ h else 0
+
+/-- the model point with canonical coordinates for a group element -/
+def ofGroup : (SW p a b).Point → Pt
+  | .zero => .inf
+  | .some x y _ => .aff x.val y.val
+
+variable {p a b}
+
+theorem valid_of_rep (hc : CurveOK p a b) {P : Pt} {A : (SW p a b).Point} (h : Rep p a b P A) :
+    Valid p a b P := by
+  cases h with
+  | inf => trivial
+  | aff x y hx hy h =>
+    exact ⟨hx, hy, (onCurve_iff p a b hc.gt3 x y).mpr ((SW_nonsingular_iff p a b hc _ _).mp h)⟩
+
+theorem rep_toGroup (hc : CurveOK p a b) {P : Pt} (h : Valid p a b P) :
+    Rep p a b P (toGroup p a b P) := by
+  cases P with
+  | inf => exact Rep.inf
+  | aff x y =>
+    obtain ⟨hx, hy, hon⟩ := h
+    have hns : (SW p a b).Nonsingular (x : ZMod p) (y : ZMod p) :=
+      (SW_nonsingular_iff p a b hc _ _).mpr ((onCurve_iff p a b hc.gt3 x y).mp hon)
+    simp only [toGroup, dif_pos hns]
+    exact Rep.aff x y hx hy hns
+
+theorem valid_iff_rep (hc : CurveOK p a b) (P : Pt) :
+    Valid p a b P ↔ ∃ A, Rep p a b P A :=
+  ⟨fun h => ⟨_, rep_toGroup hc h⟩, fun ⟨_, h⟩ => valid_of_rep hc h⟩
+
+theorem toGroup_of_rep (hc : CurveOK p a b) {P : Pt} {A : (SW p a b).Point} (h : Rep p a b P A) :
+    toGroup p a b P = A :=
+  (rep_toGroup hc (valid_of_rep hc h)).unique_right h
+
+theorem rep_ofGroup (A : (SW p a b).Point) : Rep p a b (ofGroup p a b A) A := by
+  have : NeZero p := ⟨hp.out.ne_zero⟩
+  cases A with
+  | zero => exact Rep.inf
+  | some x y h =>
+    exact Rep.mk' p a b h (ZMod.val_lt x) (ZMod.val_lt y) (ZMod.natCast_zmod_val x)
+      (ZMod.natCast_zmod_val y)
+
+theorem toGroup_ofGroup (hc : CurveOK p a b) (A : (SW p a b).Point) :
+    toGroup p a b (ofGroup p a b A) = A := toGroup_of_rep hc (rep_ofGroup A)
+
+theorem ofGroup_valid (hc : CurveOK p a b) (A : (SW p a b).Point) : Valid p a b (ofGroup p a b A) :=
+  valid_of_rep hc (rep_ofGroup A)
+
+theorem ofGroup_toGroup (hc : CurveOK p a b) {P : Pt} (h : Valid p a b P) :
+    ofGroup p a b (toGroup p a b P) = P :=
+  (rep_ofGroup _).unique_left (rep_toGroup hc h)
+
+/-- `toGroup` is injective on valid points -/
+theorem toGroup_inj (hc : CurveOK p a b) {P Q : Pt} (hP : Valid p a b P) (hQ : Valid p a b Q)
+    (h : toGroup p a b P = toGroup p a b Q) : P = Q :=
+  (rep_toGroup hc hP).unique_left (h ▸ rep_toGroup hc hQ)
+
+@[simp] theorem toGroup_inf : toGroup p a b .inf = 0 := rfl
+
+theorem toGroup_eq_zero (hc : CurveOK p a b) {P : Pt} (hP : Valid p a b P) :
+    toGroup p a b P = 0 ↔ P = .inf :=
+  ((rep_toGroup hc hP).eq_inf_iff).symm
+
+omit hp in
+theorem valid_inf : Valid p a b .inf := trivial
+
+omit hp in
+theorem Valid.lt {x y : ℕ} (h : Valid p a b (.aff x y)) : x < p ∧ y < p := ⟨h.1, h.2.1⟩
+
+theorem valid_aff_iff (hc : CurveOK p a b) (x y : ℕ) :
+    Valid p a b (.aff x y) ↔ x < p ∧ y < p ∧ y ^ 2 % p = (x ^ 3 + a * x + b) % p := by
+  simp only [Valid, onCurve_iff_mod p a b hc.gt3]
+
+/-- closure: the sum of two curve points is a curve point (the constructor check of
+    `Point.__add__`'s result never fails) -/
+theorem padd_valid (hc : CurveOK p a b) {P Q : Pt} (hP : Valid p a b P) (hQ : Valid p a b Q) :
+    Valid p a b (padd p a P Q) :=
+  valid_of_rep hc (rep_padd hc.gt3 (rep_toGroup hc hP) (rep_toGroup hc hQ))
+
+theorem toGroup_padd (hc : CurveOK p a b) {P Q : Pt} (hP : Valid p a b P) (hQ : Valid p a b Q) :
+    toGroup p a b (padd p a P Q) = toGroup p a b P + toGroup p a b Q :=
+  toGroup_of_rep hc (rep_padd hc.gt3 (rep_toGroup hc hP) (rep_toGroup hc hQ))
+
+theorem pmul_valid (hc : CurveOK p a b) (k : ℕ) {P : Pt} (hP : Valid p a b P) :
+    Valid p a b (pmul p a k P) :=
+  valid_of_rep hc (rep_pmul hc.gt3 k (rep_toGroup hc hP))
+
+theorem toGroup_pmul (hc : CurveOK p a b) (k : ℕ) {P : Pt} (hP : Valid p a b P) :
+    toGroup p a b (pmul p a k P) = k • toGroup p a b P :=
+  toGroup_of_rep hc (rep_pmul hc.gt3 k (rep_toGroup hc hP))
+
+theorem rep_pneg {P : Pt} {A : (SW p a b).Point} (h : Rep p a b P A) :
+    Rep p a b (pneg p P) (-A) := by
+  cases h with
+  | inf => exact Rep.inf
+  | aff x y hx hy h =>
+    rw [Affine.Point.neg_some]
+    refine Rep.mk' p a b _ hx (Nat.mod_lt _ hp.out.pos) rfl ?_
+    rw [SW_negY, ZMod.natCast_mod, Nat.cast_sub hy.le, ZMod.natCast_self, zero_sub]
+
+theorem pneg_valid (hc : CurveOK p a b) {P : Pt} (hP : Valid p a b P) : Valid p a b (pneg p P) :=
+  valid_of_rep hc (rep_pneg (rep_toGroup hc hP))
+
+theorem toGroup_pneg (hc : CurveOK p a b) {P : Pt} (hP : Valid p a b P) :
+    toGroup p a b (pneg p P) = - toGroup p a b P :=
+  toGroup_of_rep hc (rep_pneg (rep_toGroup hc hP))
+
+omit hp in
+theorem padd_inf_left (Q : Pt) : padd p a .inf Q = Q := by simp [padd]
+
+omit hp in
+theorem padd_inf_right (P : Pt) : padd p a P .inf = P := by cases P <;> simp [padd]
+
+/-- commutativity -/
+theorem padd_comm (hc : CurveOK p a b) {P Q : Pt} (hP : Valid p a b P) (hQ : Valid p a b Q) :
+    padd p a P Q = padd p a Q P := by
+  apply toGroup_inj hc (padd_valid hc hP hQ) (padd_valid hc hQ hP)
+  rw [toGroup_padd hc hP hQ, toGroup_padd hc hQ hP, add_comm]
+
+/-- associativity -/
+theorem padd_assoc (hc : CurveOK p a b) {P Q R : Pt} (hP : Valid p a b P) (hQ : Valid p a b Q)
+    (hR : Valid p a b R) : padd p a (padd p a P Q) R = padd p a P (padd p a Q R) := by
+  apply toGroup_inj hc (padd_valid hc (padd_valid hc hP hQ) hR) (padd_valid hc hP (padd_valid hc hQ hR))
+  rw [toGroup_padd hc (padd_valid hc hP hQ) hR, toGroup_padd hc hP hQ,
+    toGroup_padd hc hP (padd_valid hc hQ hR), toGroup_padd hc hQ hR, add_assoc]
+
+/-- inverses: `P + (−P) = ∞` -/
+theorem padd_pneg (hc : CurveOK p a b) {P : Pt} (hP : Valid p a b P) :
+    padd p a P (pneg p P) = .inf := by
+  apply toGroup_inj hc (padd_valid hc hP (pneg_valid hc hP)) valid_inf
+  rw [toGroup_padd hc hP (pneg_valid hc hP), toGroup_pneg hc hP, toGroup_inf, add_neg_cancel]
+
+theorem pneg_padd (hc : CurveOK p a b) {P : Pt} (hP : Valid p a b P) :
+    padd p a (pneg p P) P = .inf := by
+  rw [padd_comm hc (pneg_valid hc hP) hP, padd_pneg hc hP]
+
+/-- the inverse is unique: `P + Q = ∞` iff `Q = −P` -/
+theorem padd_eq_inf_iff (hc : CurveOK p a b) {P Q : Pt} (hP : Valid p a b P) (hQ : Valid p a b Q) :
+    padd p a P Q = .inf ↔ Q = pneg p P := by
+  rw [← toGroup_eq_zero hc (padd_valid hc hP hQ), toGroup_padd hc hP hQ]
+  constructor
+  · intro h
+    apply toGroup_inj hc hQ (pneg_valid hc hP)
+    rw [toGroup_pneg hc hP]; exact (neg_eq_of_add_eq_zero_right h).symm
+  · intro h; rw [h, toGroup_pneg hc hP, add_neg_cancel]
+
+omit hp in
+theorem pneg_pneg {P : Pt} (hP : Valid p a b P) : pneg p (pneg p P) = P := by
+  cases P with
+  | inf => rfl
+  | aff x y =>
+    obtain ⟨_, hy, _⟩ := hP
+    simp only [pneg]
+    congr 1
+    by_cases h0 : y = 0
+    · subst h0; simp
+    · have h1 : (p - y) % p = p - y := Nat.mod_eq_of_lt (by omega)
+      rw [h1, Nat.sub_sub_self hy.le, Nat.mod_eq_of_lt hy]
+
+omit hp in
+theorem pmul_zero (P : Pt) : pmul p a 0 P = .inf := by simp [pmul, pmulAux]
+
+theorem pmul_inf (hc : CurveOK p a b) (k : ℕ) : pmul p a k .inf = .inf := by
+  apply toGroup_inj hc (pmul_valid hc k valid_inf) valid_inf
+  rw [toGroup_pmul hc k valid_inf, toGroup_inf, nsmul_zero]
+
+theorem pmul_one (hc : CurveOK p a b) {P : Pt} (hP : Valid p a b P) : pmul p a 1 P = P := by
+  apply toGroup_inj hc (pmul_valid hc 1 hP) hP
+  rw [toGroup_pmul hc 1 hP, one_nsmul]
+
+/-- `P + P = 2P` -/
+theorem pmul_two (hc : CurveOK p a b) {P : Pt} (hP : Valid p a b P) :
+    pmul p a 2 P = padd p a P P := by
+  apply toGroup_inj hc (pmul_valid hc 2 hP) (padd_valid hc hP hP)
+  rw [toGroup_pmul hc 2 hP, toGroup_padd hc hP hP, two_nsmul]
+
+theorem pmul_succ (hc : CurveOK p a b) (k : ℕ) {P : Pt} (hP : Valid p a b P) :
+    pmul p a (k + 1) P = padd p a (pmul p a k P) P := by
+  apply toGroup_inj hc (pmul_valid hc _ hP) (padd_valid hc (pmul_valid hc k hP) hP)
+  rw [toGroup_pmul hc _ hP, toGroup_padd hc (pmul_valid hc k hP) hP, toGroup_pmul hc k hP, succ_nsmul]
+
+/-- `(j + k)P = jP + kP` -/
+theorem pmul_add (hc : CurveOK p a b) (j k : ℕ) {P : Pt} (hP : Valid p a b P) :
+    pmul p a (j + k) P = padd p a (pmul p a j P) (pmul p a k P) := by
+  apply toGroup_inj hc (pmul_valid hc _ hP) (padd_valid hc (pmul_valid hc j hP) (pmul_valid hc k hP))
+  rw [toGroup_pmul hc _ hP, toGroup_padd hc (pmul_valid hc j hP) (pmul_valid hc k hP),
+    toGroup_pmul hc j hP, toGroup_pmul hc k hP, add_nsmul]
+
+/-- `(jk)P = j(kP)` -/
+theorem pmul_mul (hc : CurveOK p a b) (j k : ℕ) {P : Pt} (hP : Valid p a b P) :
+    pmul p a (j * k) P = pmul p a j (pmul p a k P) := by
+  apply toGroup_inj hc (pmul_valid hc _ hP) (pmul_valid hc j (pmul_valid hc k hP))
+  rw [toGroup_pmul hc _ hP, toGroup_pmul hc j (pmul_valid hc k hP), toGroup_pmul hc k hP, mul_nsmul']
+
+/-- `k(P + Q) = kP + kQ` -/
+theorem pmul_padd (hc : CurveOK p a b) (k : ℕ) {P Q : Pt} (hP : Valid p a b P) (hQ : Valid p a b Q) :
+    pmul p a k (padd p a P Q) = padd p a (pmul p a k P) (pmul p a k Q) := by
+  apply toGroup_inj hc (pmul_valid hc _ (padd_valid hc hP hQ))
+    (padd_valid hc (pmul_valid hc k hP) (pmul_valid hc k hQ))
+  rw [toGroup_pmul hc _ (padd_valid hc hP hQ), toGroup_padd hc hP hQ,
+    toGroup_padd hc (pmul_valid hc k hP) (pmul_valid hc k hQ), toGroup_pmul hc k hP,
+    toGroup_pmul hc k hQ, nsmul_add]
+
+/-- `k(−P) = −(kP)` -/
+theorem pmul_pneg (hc : CurveOK p a b) (k : ℕ) {P : Pt} (hP : Valid p a b P) :
+    pmul p a k (pneg p P) = pneg p (pmul p a k P) := by
+  apply toGroup_inj hc (pmul_valid hc _ (pneg_valid hc hP)) (pneg_valid hc (pmul_valid hc k hP))
+  rw [toGroup_pmul hc _ (pneg_valid hc hP), toGroup_pneg hc hP,
+    toGroup_pneg hc (pmul_valid hc k hP), toGroup_pmul hc k hP, neg_nsmul]
+
+/-- scalars act modulo any `n` that annihilates the point -/
+theorem pmul_mod (hc : CurveOK p a b) (n k : ℕ) {P : Pt} (hP : Valid p a b P)
+    (hn : pmul p a n P = .inf) : pmul p a (k % n) P = pmul p a k P := by
+  have h0 : n • toGroup p a b P = 0 := by
+    rw [← toGroup_pmul hc n hP, hn, toGroup_inf]
+  apply toGroup_inj hc (pmul_valid hc _ hP) (pmul_valid hc _ hP)
+  rw [toGroup_pmul hc _ hP, toGroup_pmul hc _ hP]
+  conv_rhs => rw [← Nat.div_add_mod k n, add_nsmul, mul_nsmul, h0, nsmul_zero, zero_add]
+
+omit hp in
+/-- doubling an affine point gives infinity exactly when `y = 0` (a point of order two) -/
+theorem padd_self_eq_inf_iff (x y : ℕ) :
+    padd p a (.aff x y) (.aff x y) = .inf ↔ y = 0 := by
+  constructor
+  · intro h
+    by_contra hy
+    simp [padd, hy] at h
+  · intro h; simp [padd, h]
+
 end Buidl.EC
